@@ -8,6 +8,7 @@
 #include <amgcl/coarsening/aggregation.hpp>
 #include <amgcl/coarsening/smoothed_aggregation.hpp>
 #include <amgcl/coarsening/smoothed_aggr_emin.hpp>
+#include <amgcl/coarsening/as_scalar.hpp>
 #include <amgcl/relaxation/spai0.hpp>
 #include <deque>
 #include <complex>
@@ -117,7 +118,7 @@ template <class V> static CDense vdense(const amgcl::backend::crs<V> &M, bool ab
 static CDense cmul(const CDense &A, const CDense &B) { CDense C(A.n, B.m); for (long i = 0; i < A.n; ++i) for (long k = 0; k < A.m; ++k) { CL a = A(i, k); if (a == CL(0, 0)) continue; for (long j = 0; j < B.m; ++j) C(i, j) += a * B(k, j); } return C; }
 
 template <class V, template <class> class C>
-static void run_valued(const Plan &p, const gen::Csr &A0, Result &res, bool adjoint_clause) {
+static void run_valued(const Plan &p, const gen::Csr &A0, Result &res, bool adjoint_clause, bool scalar_wrapper = false) {
     typedef amgcl::backend::builtin<V> VB; typedef amgcl::backend::crs<V> VM;
     typedef amgcl::amg<VB, recorder<C>::template type, amgcl::relaxation::spai0> AMG;
     long coarsening = p.get("coarsening");
@@ -128,6 +129,7 @@ static void run_valued(const Plan &p, const gen::Csr &A0, Result &res, bool adjo
     typename AMG::params prm;
     prm.coarse_enough = (unsigned)std::max<long>(1, p.get("coarse_enough") / B); prm.max_levels = (unsigned)p.get("max_levels"); prm.direct_coarse = p.get("direct_coarse") != 0; prm.allow_rebuild = true;
     set_coarsening_params(prm.coarsening, p, (float)p.get("eps16") / 16.0f);
+    if (scalar_wrapper) { prm.coarsening.aggr.block_size = B; res.counts["as_scalar_wrapper_worlds"]++; }      // the wrapped policy aggregates the unblocked matrix node-wise
     level_log().clear();
     std::unique_ptr<AMG> amg;
     try { amg.reset(new AMG(*Av, prm)); } catch (const std::exception &) { res.counts["construction_threw"]++; level_log().clear(); return; }
@@ -292,7 +294,7 @@ Plan generate(uint64_t seed, uint64_t run, bool thorough) {
     p.set("npre", r.range(1, 2), 1); p.set("ncycle", r.range(1, 2), 1);
     p.set("eps16", r.range(0, 8), 0); p.set("over", r.range(0, 3), 0); p.set("trunc", r.range(0, 1), 0); p.set("sa_relax", r.range(0, 2), 0);
     p.set("block_size", r.chance(0.15) ? 2 : 1, 1);
-    p.set("valued", r.chance(0.2) ? r.range(1, 2) : 0, 0);      // 1: complex values, 2: 2x2 block values (aggregation-type coarsenings)
+    p.set("valued", r.chance(0.2) ? r.range(1, 3) : 0, 0);      // 1: complex values, 2: 2x2 block values (aggregation-type coarsenings), 3: 2x2 blocks coarsened through coarsening::as_scalar<>
     static const long nts[] = { 1, 1, 2, 5, 16, 17, 24, 32 };
     p.set("nt", nts[r.below(8)], 1);
     long nops = r.range(1, thorough ? 8 : 5);
@@ -319,6 +321,9 @@ Result execute(const Plan &p) {
             switch (p.get("coarsening") * 10 + valued) {
                 case 11: run_valued<CX, amgcl::coarsening::aggregation>(p, A, res, true); break;
                 case 12: run_valued<BV, amgcl::coarsening::aggregation>(p, A, res, true); break;
+                case 13: run_valued<BV, amgcl::coarsening::as_scalar<amgcl::coarsening::aggregation>::type>(p, A, res, true, true); break;
+                case 23: run_valued<BV, amgcl::coarsening::as_scalar<amgcl::coarsening::smoothed_aggregation>::type>(p, A, res, true, true); break;
+                case 33: run_valued<BV, amgcl::coarsening::smoothed_aggr_emin>(p, A, res, false); break;
                 case 21: run_valued<CX, amgcl::coarsening::smoothed_aggregation>(p, A, res, true); break;
                 case 22: run_valued<BV, amgcl::coarsening::smoothed_aggregation>(p, A, res, true); break;
                 case 31: run_valued<CX, amgcl::coarsening::smoothed_aggr_emin>(p, A, res, false); break;
